@@ -111,7 +111,7 @@ impl Property for C19 {
             }
             match materialize(i, s, &dir, &tmp, &tz) {
                 Ok(m) => mats.push(m),
-                Err(e) => return Outcome::inconclusive(e),
+                Err(e) => return crate::sources::materialize_failed(e),
             }
         }
         let all_instants: Vec<i64> = {
